@@ -37,19 +37,24 @@ Apis      == IF "API" \in DOMAIN IOEnv THEN {IOEnv.API} ELSE {"str", "obj"}
 Block     == {"with", "deco", "classdeco"}          \* styles that end by leaving a block
 AllStyles == Block \cup {"start"}
 AllRepls  == {"default", "function", "boundmeth", "callobj", "newcallable", "value"}
-Shareable == {"function", "boundmeth", "callobj", "value"}     \* objects the caller supplies
+Descr     == {"classmethod", "staticmethod"}          \* classmethod(...) / staticmethod(...) OBJECTS as replacement
+Shareable == {"function", "boundmeth", "callobj", "value"} \cup Descr     \* objects the caller supplies
+ClassTargets == {"meth", "cmeth", "smeth"}           \* descriptor replacements only make sense in a class
 (* smaller alphabets for the deeper / wider runs *)
 Preset    == IF "PRESET" \in DOMAIN IOEnv THEN IOEnv.PRESET ELSE "full"
-Styles    == CASE Preset = "full" -> AllStyles [] Preset = "mid" -> {"with", "start"} [] OTHER -> {"with", "deco", "start"}
+Styles    == CASE Preset \in {"full", "all"} -> AllStyles [] Preset = "mid" -> {"with", "start"} [] OTHER -> {"with", "deco", "start"}
 Repls     == CASE Preset = "full" -> AllRepls
+               [] Preset = "all" -> AllRepls \cup Descr
                [] Preset = "small" -> {"default", "function", "value"}
-               [] OTHER -> {"default", "function", "callobj", "value"}          \* "mid"
-Convs     == <<"sync", "asynq", "yield", "asyncio">>
+               [] Preset = "descr" -> Descr \cup {"function", "default"}
+               [] OTHER -> {"default", "function", "callobj", "value"}          \* "mid" (with/start), "mid3" (with/deco/start)
+(* "gather": three .asyncio(...) coroutines with different arguments are created first and awaited together *)
+Convs     == <<"sync", "asynq", "yield", "asyncio", "gather">>
 
 VARIABLES target, api, slots, act, pat, gen, hist
 vars == <<target, api, slots, act, pat, gen, hist>>
 
-Init == /\ target \in Targets /\ api \in Apis
+Init == /\ target \in (IF Preset = "descr" THEN ClassTargets ELSE Targets) /\ api \in Apis
         /\ slots = [t \in 1..NT |-> 0] /\ act = <<>> /\ pat = <<>> /\ gen = 0 /\ hist = <<>>
 
 KindOf(t) == IF t = 1 THEN target ELSE "modfn"
@@ -69,17 +74,30 @@ ConvsOf(p, t, s) ==
   ELSE IF KindOf(t) = "attr" THEN (IF s = 0 THEN <<"read">> ELSE <<"sync">>)
   ELSE Convs
 
-(* what one call through convention c reaches: the replacement OBJECT of the innermost active patch (the
-   original otherwise) - the same for every convention.  Python binds a plain function stored in a class to the
-   instance it is reached through (so does the original method); nothing else binds. *)
-Reach(p, t, s, c) ==
+(* the access paths through which a target is called: a method through an instance; a classmethod / staticmethod
+   (target or replacement object) through the class and through an instance *)
+PathsOf(p, t, s) ==
+  CASE KindOf(t) \in {"cmeth", "smeth"} -> <<"cls", "inst">>
+    [] KindOf(t) = "meth" -> (IF s # 0 /\ p[s].repl \in Descr THEN <<"cls", "inst">> ELSE <<"inst">>)
+    [] KindOf(t) = "attr" -> <<"cls">>
+    [] OTHER -> <<"direct">>
+
+(* what one call through convention c and access path a reaches: the replacement OBJECT of the innermost active
+   patch (the original otherwise) - the same for every convention and path.  Binding is Python's: a plain function
+   stored in a class receives the instance it is reached through (so does the original method), a classmethod
+   (original or replacement object) the class, a staticmethod / mock / callable object / bound method nothing. *)
+Reach(p, t, s, c, a) ==
   [reach |-> IF s = 0 THEN 0 ELSE p[s].obj,
-   bound |-> IF KindOf(t) = "meth" /\ (s = 0 \/ p[s].repl = "function") THEN "inst" ELSE "none"]
+   bound |-> IF s = 0 THEN (CASE KindOf(t) = "meth" -> "inst" [] KindOf(t) = "cmeth" -> "cls" [] OTHER -> "none")
+             ELSE CASE p[s].repl = "function" -> (IF a = "inst" THEN "inst" ELSE "none")
+                    [] p[s].repl = "classmethod" -> "cls"
+                    [] OTHER -> "none"]
 
 Obs(p, sl) == [t \in 1..NT |->
-  LET cs == ConvsOf(p, t, sl[t]) IN
-  [slot |-> SlotTok(p, sl[t]), convs |-> cs,
-   reach |-> Reach(p, t, sl[t], cs[1]).reach, bound |-> Reach(p, t, sl[t], cs[1]).bound]]
+  LET cs == ConvsOf(p, t, sl[t])
+      ps == PathsOf(p, t, sl[t]) IN
+  [slot |-> SlotTok(p, sl[t]), convs |-> cs, reach |-> Reach(p, t, sl[t], cs[1], ps[1]).reach,
+   paths |-> [i \in 1..Len(ps) |-> [path |-> ps[i], bound |-> Reach(p, t, sl[t], cs[1], ps[i]).bound]]]]
 
 Rec(op, style, repl, k, share, t, p, sl) ==
   [op |-> op, style |-> style, repl |-> repl, k |-> k, share |-> share, tgt |-> t, res |-> Obs(p, sl)]
@@ -92,6 +110,7 @@ Activate(k, p) ==       \* patcher k (described by p) saves what its target hold
 Enter(style, repl, same, t) ==
   /\ Len(hist) < Depth /\ Len(act) < MaxNest /\ Len(pat) < MaxPatches
   /\ same => (pat # <<>> /\ pat[Len(pat)].repl = repl /\ repl \in Shareable)
+  /\ repl \in Descr => KindOf(t) \in ClassTargets
   /\ LET k == Len(pat) + 1
          p == Append(pat, [style |-> style, repl |-> repl, tgt |-> t, gen |-> gen, saved |-> 0,
                            obj |-> IF same THEN pat[Len(pat)].obj ELSE k]) IN
@@ -157,8 +176,11 @@ SavedChain ==                                             \* each active patch s
     pat[act[i]].saved = IF below = {} THEN 0 ELSE act[CHOOSE j \in below : \A l \in below : l <= j]
 ConventionsAgree ==                                       \* all conventions reach the same object, bound alike
   \A t \in 1..NT :
-    LET cs == ConvsOf(pat, t, slots[t]) IN
-    \A a, b \in 1..Len(cs) : Reach(pat, t, slots[t], cs[a]) = Reach(pat, t, slots[t], cs[b])
+    LET cs == ConvsOf(pat, t, slots[t])
+        ps == PathsOf(pat, t, slots[t]) IN
+    \A a, b \in 1..Len(cs) : \A i, j \in 1..Len(ps) :
+      /\ Reach(pat, t, slots[t], cs[a], ps[i]) = Reach(pat, t, slots[t], cs[b], ps[i])       \* per path: identical
+      /\ Reach(pat, t, slots[t], cs[a], ps[i]).reach = Reach(pat, t, slots[t], cs[b], ps[j]).reach
 OriginalIffRestored ==
   \A i \in 1..Len(hist) : \A t \in 1..NT : (hist[i].res[t].slot = "orig") <=> (hist[i].res[t].reach = 0)
 NonCallableAsIs ==
